@@ -2,8 +2,10 @@
 # tools/run_all.sh <tier> [ids...] : runs the checks one after the other, one summary line each (offline helper)
 TIER=${1:-quick}; shift
 IDS=${@:-C01 C02 C03 C04 C05 C06 C07 C08 C09 C10 C11 C12 C13 C14 C15 C16 C17 C18 C19 C20}
+D=$(mktemp -d /tmp/runall.XXXXXX)
 for c in $IDS; do
-  ./check $c --tier $TIER > /tmp/runall_$c.out 2>&1; rc=$?
-  echo "$c rc=$rc $(grep -v '^KNOWN\|^   \|^VIOLATION\|Warning\|return total' /tmp/runall_$c.out | tail -1)"
-  grep -A2 '^VIOLATION' /tmp/runall_$c.out | head -400
+  ./check $c --tier $TIER > $D/$c.out 2>&1; rc=$?
+  echo "$c rc=$rc $(grep -v '^KNOWN\|^   \|^VIOLATION\|Warning\|return total' $D/$c.out | tail -1)"
+  grep -A2 '^VIOLATION' $D/$c.out | head -400
 done
+rm -rf $D
